@@ -441,6 +441,9 @@ func (m *Manager) acquireTasks(envId uid.ID, taskDescriptors Descriptors) (err e
 				for _, taskPtr := range runningTasksForThisDescriptor {
 					if _, ok := tasksAlreadyRunning[taskPtr]; ok {
 						continue
+					} else if !taskPtr.claim(descriptor.TaskRole) {
+						// taken meanwhile by an acquisition running concurrently for another environment
+						continue
 					} else { // task not claimed yet, we do so now
 						tasksAlreadyRunning[taskPtr] = descriptor
 						claimed = true
@@ -636,6 +639,10 @@ func (m *Manager) acquireTasks(envId uid.ID, taskDescriptors Descriptors) (err e
 		for taskPtr := range deployedTasks {
 			taskPtr.SetParent(nil)
 			deployedTaskIds = append(deployedTaskIds, taskPtr.taskId)
+		}
+		// the running tasks we locked for ourselves above go back to being claimable
+		for taskPtr := range tasksAlreadyRunning {
+			taskPtr.SetParent(nil)
 		}
 
 		err = TasksDeploymentError{
